@@ -17,6 +17,12 @@ fn sources(q: bool) -> Vec<SrcSpec> {
         SrcSpec::Image { w: 2, h: 2, data: image_of(2, 2, &VALS12, 6), repeat: true, bilinear: true, xf: [0.75, 0., 0., 1.5, 0.25, 0.5] },
         SrcSpec::Linear { stops: ramp.clone(), spread: Spr::Pad, p: [0., 0., 4., 3.] },
         SrcSpec::Radial { stops: ramp.clone(), spread: Spr::Reflect, p: [1.5, 1.5, 2.] },
+        // gradients given by a raw matrix that is not a rotation times a scale (t depends on y though
+        // m12 is zero), and a two-circle gradient with opaque stops that is undefined (transparent)
+        // on part of the surface
+        SrcSpec::LinearRaw { stops: ramp.clone(), spread: Spr::Pad, xf: [0.25, 0., 0.25, 0.25, 0., 0.] },
+        SrcSpec::LinearRaw { stops: vec![Stop { pos: 0.0, color: 0xff000000 }, Stop { pos: 1.0, color: 0xffffffff }], spread: Spr::Repeat, xf: [0., 0., 0.5, 1., 0., 0.] },
+        SrcSpec::TwoCircle { stops: vec![Stop { pos: 0.0, color: 0xffff0000 }, Stop { pos: 1.0, color: 0xff0000ff }], spread: Spr::Pad, p: [1.0, 1.5, 0.5, 3.0, 1.5, 1.0] },
     ];
     if !q {
         v.push(SrcSpec::Solid(0x00000000));
